@@ -121,6 +121,11 @@ func init() {
 				return runC03DefaultsHistory(c, r)
 			}
 			s, exact := genExact(r, true)
+			if r.Intn(6) == 0 {
+				// same model over unnamed / mutually assignable / func / chan types
+				s = exoticize(s, r)
+				res.obs("cases_over_exotic_types", 1)
+			}
 			res.Key = s.Key()
 			for _, cv := range s.Convs {
 				for _, o := range cv.Out {
@@ -250,7 +255,7 @@ func init() {
 			zeroErrs := 0
 			if !unsatErrs && r.Intn(5) == 0 {
 				// non-nil errors whose dynamic value is a zero value
-				zeroErrs = 1 + r.Intn(4)
+				zeroErrs = 1 + r.Intn(6)
 				res.obs("cases_with_zero_valued_error_values", 1)
 			}
 			// one case in four: converters that declare an error and do not
@@ -433,9 +438,12 @@ func init() {
 				}
 				s = g.Scenario(r)
 				fam = "general"
-			default:
+			case x < 98:
 				s = sameNameUnnamed(r)
 				fam = "same-name-unnamed-types"
+			default:
+				s = manyInterfaces(r)
+				fam = "many-interfaces"
 			}
 			if (fam == "chain" || fam == "dag" || fam == "cycle" || fam == "layered") && len(s.Convs) >= 2 && r.Intn(4) == 0 {
 				// one link of the derivation is manufactured by a ConverterGen
@@ -619,6 +627,12 @@ func init() {
 					convN.InForm, convN.OutForm, convN.HasErr = FormBuilt, FormBuilt, true
 				} else {
 					convN.InForm, convN.OutForm = 1+r.Intn(2), form(convN.Out)
+				}
+				if !subOnN && r.Intn(4) == 0 {
+					// the name-using converter is manufactured by a generator
+					// when it is shown the value NAMED n (of type T)
+					convN.Deliver, convN.GenTrig, convN.GenName = DelGen, T, n
+					res.obs("competitions_with_a_generated_name_using_converter", 1)
 				}
 				if r.Intn(2) == 0 {
 					s.Convs = append(s.Convs, convN)
